@@ -179,7 +179,7 @@ def run_tlc(
     workers = workers or os.environ.get("VERIF_TLC_WORKERS", "auto")
     res = TLCResult()
     with scratch("tlc-") as meta:
-        java_opts = ["-XX:+UseParallelGC", "-Xmx8g"]
+        java_opts = ["-XX:+UseParallelGC", "-Xmx8g", f"-Djava.io.tmpdir={meta}"]   # TLC leaves an empty tlc-<n> directory in java.io.tmpdir
         if dfs:
             java_opts.append("-Dtlc2.tool.queue.IStateQueue=StateDeque")
         cmd = ["java"] + java_opts + ["-cp", TLA_JAR, "tlc2.TLC"]
